@@ -5,7 +5,7 @@ from vlib import Job
 LEVEL = ('Contract on the production parse_container() (data blocks and save frames, recursive through --enforce-contract-rec) with the token source, '
          'the item/loop sub-productions and every storage function replaced by contracts: skip_depth accounting on every path, no block/frame/'
          'keyword/data-name callback while a skip is in effect (assertion in every callback stub), no storage call while skipping or without a target.')
-UNDECIDED = ['parse_cif, parse_item, parse_loop, parse_loop_header, parse_loop_packets, parse_value/list/table: assumed balanced (contracts), not yet enforced; '
+UNDECIDED = ['parse_cif, parse_loop, parse_loop_header, parse_loop_packets, parse_value/list/table: assumed balanced (contracts), not yet enforced; '
              'the known defect F4 (handle_item delivered for loop values while skipping, parser.c parse_loop_packets) lies there',
              'that the items reported are those later found in the CIF (storage = SQLite)', 'whitespace callbacks during error recovery are not constrained',
              'callback order across productions, END / positive handler result propagation through parse_cif']
@@ -22,6 +22,21 @@ def jobs():
             reach=['entered-skipping', 'sibling-handoff', 'stored'], min_obligations=50, timeout=1800, mem_gb=44, replay=False, trusted=[SUB],
             clauses=['skip depth balanced on every path (incl. error exits and allocation failure)', 'start/end handlers, loop_ keyword and data-name callbacks silent while skipping',
                      'frames are created / looked up / pruned only outside a skip and only with a target container', 'error callback line >= 1']),
+        Job('parse_item', 'parser_prod_h.c', entry='harness_parse_item', enforce='parse_item', tus=['parser.c'],
+            replace=['next_token', 'parse_value', 'cif_container_set_value', 'cif_value_free', 'cif_value_create'], text_ui=True,
+            reach=['item-stored', 'item-skipped', 'item-skip-siblings'], min_obligations=30, timeout=1800, mem_gb=44, replay=False, trusted=[SUB],
+            clauses=['item callback and storage only for a named item outside a skip', 'stored only after CONTINUE (or without handler)', 'skip depth restored; SKIP_SIBLINGS handed off as depth 1',
+                     'value released on every path']),
+        Job('parse_loop_packets', 'parser_prod_h.c', entry='harness_parse_loop_packets', enforce='parse_loop_packets', tus=['parser.c'],
+            replace=['next_token', 'parse_value', 'cif_packet_create', 'cif_packet_get_item', 'cif_packet_free', 'cif_value_init', 'cif_value_create', 'cif_value_free', 'cif_loop_add_packet'],
+            text_ui=True, no_loop_contracts=True,
+            unwindset=['parse_loop_packets_wrapped_for_contract_checking.0:4', 'parse_loop_packets_wrapped_for_contract_checking.1:5', 'parse_loop_packets_wrapped_for_contract_checking.2:4',
+                       'parse_loop_packets.0:4', 'parse_loop_packets.1:5', 'parse_loop_packets.2:4'],
+            flags=['--malloc-may-fail', '--malloc-fail-null', '--no-unwinding-assertions'],
+            bounded='loops of 1-2 columns (named or duplicate place-holders) and at most 4 tokens in the loop body; token types, handler answers and registrations arbitrary',
+            reach=['packet-stored', 'body-skipped', 'item-reported'], min_obligations=30, timeout=1800, mem_gb=44, replay=False, trusted=[SUB],
+            clauses=['packet_start / item / packet_end callbacks silent while a skip is in effect', 'packets stored only outside a skip, only with a target loop, only after packet_end answered CONTINUE',
+                     'skip depth restored by a completed loop body entered while skipping']),
     ]
 
 
